@@ -212,7 +212,10 @@ func (nv *nodeVariable) Execute(ctx *ExecutionContext, writer TemplateWriter) *E
 		return err
 	}
 
-	if !nv.expr.FilterApplied("safe") && !value.safe && value.IsString() && ctx.Autoescape {
+	// Not only strings carry text: a value whose String() method is used
+	// for printing (fmt.Stringer) must be escaped as well.
+	_, isStringer := value.Interface().(fmt.Stringer)
+	if !nv.expr.FilterApplied("safe") && !value.safe && (value.IsString() || isStringer) && ctx.Autoescape {
 		// apply escape filter
 		value, err = filters["escape"](value, nil)
 		if err != nil {
